@@ -172,6 +172,8 @@ HARNESS_FLAVOURS = {
     "tsan": ["-O1", "-g", "-fsanitize=thread", "-DHARNESS_OMP_STANDIN"],
     # ASan/UBSan with the stand-in runtime: team sizes and omp_get_max_threads() under control of the request line
     "asanseq": ["-O1", "-g", "-fsanitize=address,undefined", "-fno-sanitize-recover=all", "-DHARNESS_EXACT", "-DHARNESS_OMP_STANDIN"],
+    # release-style build: `assert` compiled out (a refusal or a check that lives in an assert disappears there)
+    "ndebug": ["-O2", "-DNDEBUG", "-DHARNESS_ALLOCLOG"],
 }
 
 
